@@ -431,9 +431,109 @@ Proof.
     destruct (_ <? _); [intros E; inversion E; subst; exact H|apply Hacc].
 Qed.
 
+(** ** Replayed headers *)
+Lemma jump_until_ind (P : kstate -> Prop) :
+  (forall s, P s -> P (jump_voting_round s)) -> forall fuel s r, P s -> P (jump_until fuel s r).
+Proof.
+  intros Hj. induction fuel as [|f IH]; intros s r H; cbn [jump_until]; [exact H|].
+  destruct (_ <? _); [apply IH, Hj, H|exact H].
+Qed.
+
+Lemma nlist_eqb_eq a : forall b, nlist_eqb a b = true -> a = b.
+Proof.
+  induction a as [|x a IH]; intros [|y b]; cbn; try discriminate; [reflexivity|].
+  intros H. apply andb_true_iff in H as [H1 H2]. apply N.eqb_eq in H1. f_equal; [exact H1|apply IH; exact H2].
+Qed.
+
+Lemma valset_equal_keys a b : valset_equal a b = true -> vs_keys a = vs_keys b /\ vs_pows a = vs_pows b.
+Proof.
+  unfold valset_equal. intros H. repeat (apply andb_true_iff in H as [H ?]).
+  split; apply nlist_eqb_eq; assumption.
+Qed.
+
+Lemma replay_temp_auth h r keys pc entries : forall tm av tm' av',
+  auth_pmap keys KPrecommit h r pc -> auth_pmap keys KPrecommit h r tm ->
+  fold_left (fun acc e =>
+      let '(tm, av) := acc in
+      let base := match pm_get pc (fst e) with Some p => p | None => [] end in
+      let '(p', a, _) := merge_sparse KPrecommit h r (fst e) keys base (snd e) in
+      (pm_set tm (fst e) p', av && a)) entries (tm, av) = (tm', av') ->
+  auth_pmap keys KPrecommit h r tm'.
+Proof.
+  induction entries as [|e rest IH]; intros tm av tm' av' Hpc Htm; cbn [fold_left].
+  - intros E; inversion E; subst; exact Htm.
+  - assert (Hb : auth_proof keys KPrecommit h r (fst e) (match pm_get pc (fst e) with Some p => p | None => [] end)).
+    { destruct (pm_get pc (fst e)) as [p0|] eqn:Hg.
+      - exact (pm_get_auth _ _ _ _ _ _ _ Hpc Hg).
+      - apply auth_proof_nil. }
+    pose proof (merge_sparse_auth KPrecommit h r (fst e) keys _ (snd e) Hb) as Hm.
+    destruct (merge_sparse KPrecommit h r (fst e) keys _ (snd e)) as [[p' a] inc]. cbn [fst] in Hm.
+    apply IH; [exact Hpc|apply pm_set_auth; assumption].
+Qed.
+
+(** the state reached after the optional insertion of the bare header *)
+Definition replay_insert (s : kstate) (hd : hdr) (r : N) : res kstate :=
+  if existsb (fun p => bytes_eqb (hd_hash (ph_hdr p)) (hd_hash hd)) (v_phs (k_vot s)) then Ok s
+  else if existsb (fun x => let '(h', _, e) := x in
+                            (h' =? hd_height hd) && existsb (fun p => bytes_eqb (hd_hash (ph_hdr p)) (hd_hash hd)) (re_phs e))
+                  (st_rounds s)
+  then Panic "mainLoop: TODO: handle internal error from handling replayed block (round store refused the replayed header)"
+  else
+    let s1 := log_w (set_replayed s (st_replayed s ++ [hd])) (WReplay hd) in
+    Ok (set_vot s1 (with_phs (k_vot s1) (v_phs (k_vot s1) ++ [fake_ph hd r]))).
+
+Lemma auth_replay_insert s hd r s1 : auth_state s -> replay_insert s hd r = Ok s1 ->
+  auth_state s1 /\ v_h (k_vot s1) = v_h (k_vot s) /\ v_r (k_vot s1) = v_r (k_vot s) /\
+  v_vals (k_vot s1) = v_vals (k_vot s) /\ v_pc (k_vot s1) = v_pc (k_vot s).
+Proof.
+  intros H. unfold replay_insert.
+  destruct (existsb _ (v_phs _)); [intros E; inversion E; subst; split; [exact H|repeat split]|].
+  destruct (existsb _ (st_rounds s)); [discriminate|].
+  intros E; inversion E; subst. destruct H as (Hc&[Hv1 Hv2]&Hn).
+  split; [|cbn; repeat split].
+  unfold auth_state. cbn. split; [exact Hc|]. split; [|exact Hn]. split; cbn; assumption.
+Qed.
+
+Lemma auth_handle_replay s0 hd cp s' res :
+  auth_state s0 -> handle_replay s0 hd cp = Ok (s', res) -> auth_state s'.
+Proof.
+  intros H0. unfold handle_replay.
+  destruct (negb (hd_height hd =? _)); [intros E; inversion E; subst; exact H0|].
+  destruct (cp_round cp <? _); [discriminate|].
+  set (s := jump_until _ s0 _).
+  assert (H : auth_state s) by (apply jump_until_ind; [apply auth_jump|exact H0]).
+  destruct ((v_r (k_vot s) =? cp_round cp) && (v_h (k_vot s) =? hd_height hd)) eqn:Hpos; cbn [negb]; [|discriminate].
+  apply andb_true_iff in Hpos as [Hr Hh]. apply N.eqb_eq in Hr, Hh.
+  assert (Hsame : forall r0, Ok (s, r0) = Ok (s', res) -> auth_state s') by (intros r0 E; inversion E; subst; exact H).
+  destruct (negb (hd_ok hd)); [apply Hsame|].
+  destruct (negb (hd_height hd =? k_init_h s) && _); [apply Hsame|].
+  destruct (valset_equal (hd_vals hd) (v_vals (k_vot s)) && vs_ok (hd_vals hd)) eqn:Hveq; cbn [negb]; [|apply Hsame].
+  apply andb_true_iff in Hveq as [Hveq _]. destruct (valset_equal_keys _ _ Hveq) as [Hkeys _].
+  destruct (negb (vs_ok (hd_next hd))); [apply Hsame|].
+  destruct (fold_left _ (cp_proofs cp) ([], true)) as [temp allv] eqn:Hf.
+  assert (Htemp : auth_pmap (vs_keys (v_vals (k_vot s))) KPrecommit (v_h (k_vot s)) (v_r (k_vot s)) temp).
+  { rewrite Hr, Hh, <- Hkeys. eapply replay_temp_auth; [| |exact Hf].
+    - destruct H as (_&[_ Hvpc]&_). rewrite Hkeys, <- Hr, <- Hh. exact Hvpc.
+    - apply auth_pmap_nil. }
+  destruct (negb allv); [apply Hsame|].
+  fold (replay_insert s hd (cp_round cp)).
+  unfold bind at 1. destruct (replay_insert s hd (cp_round cp)) as [s1|] eqn:Hins; [|discriminate].
+  destruct (auth_replay_insert _ _ _ _ H Hins) as (H1&E1&E2&E3&E4).
+  destruct (pm_get temp (hd_hash hd)); [|intros E; inversion E; subst; exact H1].
+  unfold bind at 1. destruct (byz_majority _); [|discriminate].
+  destruct (_ <? _); [intros E; inversion E; subst; exact H1|].
+  unfold bind. destruct (check_voting_precommit_shift _) as [s3|] eqn:Hc; [|discriminate].
+  intros E; inversion E; subst.
+  eapply auth_check_voting_precommit_shift; [|exact Hc].
+  destruct H1 as (Hc1&[Hv1 Hv2]&Hn1).
+  unfold auth_state. split; [exact Hc1|]. split; [|exact Hn1].
+  unfold auth_view, with_sum, with_pc. cbn. split; [exact Hv1|].
+  apply fold_pm_set_auth; [exact Hv2|rewrite E1, E2, E3; exact Htemp].
+Qed.
+
 Lemma auth_step s o s' res : auth_state s -> step s o = Ok (s', res) -> auth_state s'.
 Proof.
-  intros H. destruct o as [p|m|m]; cbn [step].
+  intros H. destruct o as [p|m|m|x cp]; cbn [step]; [| | |apply auth_handle_replay; exact H].
   - unfold handle_ph. destruct (ph_key p); [apply auth_handle_ph_loop; exact H|].
     intros E; inversion E; subst; exact H.
   - apply auth_handle_votes; [left; reflexivity|exact H].
